@@ -153,6 +153,8 @@ class SWorldMonitor:
         self.sent = {}         # sid -> [complete messages sent by the raw client, bytes of current, size of current]
         self.swin = {}         # sid -> what is left of the window the PEER advertised for responses (revision one)
         self.spend = set()     # streams whose handler is inside SendMsg (no result yet)
+        self.rpend = set()     # streams whose handler is inside RecvMsg (no result yet)
+        self.ctx_ended = set() # streams whose handler context has ended
 
     def feed(self, op, obs_line):
         v = []
@@ -184,6 +186,8 @@ class SWorldMonitor:
         for key, msg in self.wire.feed(o["F"], self.handler_returned, self.cancelled | self.send_failed):
             prop = "C06" if key == "chunk-too-big" else ("C01" if key == "data-corrupt" else "C13")
             v.append((prop, key, msg))
+            if key == "chunk-too-big":
+                v.append(("C13", key, msg))      # "continuation frames of at most 16 KiB" is also the wire grammar's clause
         for dsid, dop, res in o["D"]:
             if dop in ("send", "reply") and res != "ok":
                 self.send_failed.add(dsid)
@@ -328,9 +332,23 @@ class SWorldMonitor:
                 self.swin[fsid] -= int(f.split(":")[-1])
         if op.startswith("s.call") and kind == "send":
             self.spend.add(sid)
+        if op.startswith("s.call") and kind == "recv":
+            self.rpend.add(sid)
         for dsid, dop, res in o["D"]:
             if dop == "send":
                 self.spend.discard(dsid)
+            if dop == "recv":
+                self.rpend.discard(dsid)
+        # ---- C07: when a handler's context ends (cancel frame, deadline, tunnel end) its blocked reads and writes return ----
+        for e in ev:
+            if e.startswith("ctxdone "):
+                self.ctx_ended.add(int(e.split()[1]))
+        for esid in sorted(self.ctx_ended):
+            for what, pend in (("RecvMsg", self.rpend), ("SendMsg", self.spend)):
+                if esid in pend and esid not in self.handler_returned:
+                    v.append(("C07", "handler-call-not-released-by-context-end", f"stream {esid}: the handler's context has ended but its blocked {what} "
+                                                                                 f"has not returned at quiescence (after `{op[:60]}`)"))
+                    pend.discard(esid)
         if not tunnel_err:
             for psid in sorted(self.spend):
                 if psid in self.swin and psid in self.table and psid not in self.cancelled and psid not in self.handler_returned \
@@ -417,6 +435,7 @@ class ClientWire:
                     out.append(("C13", "envelope-before-done", f"stream {sid}: new message frame with {s['rem']} bytes outstanding"))
                 if ln > 16384:
                     out.append(("C06", "chunk-too-big", f"stream {sid}: {ln} bytes in one frame"))
+                    out.append(("C13", "chunk-too-big", f"stream {sid}: {ln} bytes in one frame"))
                 if ln > size:
                     out.append(("C13", "more-than-size", f"stream {sid}: frame carries {ln} > declared {size}"))
                 s["rem"] = size - ln
@@ -429,6 +448,7 @@ class ClientWire:
                     out.append(("C13", "bad-continuation", f"stream {sid}: continuation of {ln} bytes with {s['rem']} outstanding"))
                 if ln > 16384:
                     out.append(("C06", "chunk-too-big", f"stream {sid}: {ln} bytes in one frame"))
+                    out.append(("C13", "chunk-too-big", f"stream {sid}: {ln} bytes in one frame"))
                 s["rem"] -= ln
                 s["sent"] += ln
             elif kind == "half":
@@ -466,6 +486,7 @@ class CWorldMonitor:
         self.rpcs = {}     # sid -> dict
         self.table = set()
         self.prev_table = None
+        self.crwin = {}    # sid -> bytes left of the window the client advertised for responses
 
     def feed(self, op, obs_line):
         if op.startswith("c.teardown"):
@@ -571,7 +592,9 @@ class CWorldMonitor:
                 r["by_close"] = True
                 r["complete_at_close"] = r["complete"]
                 self.table.discard(sid)
-            elif kind == "msg":
+            if kind in ("msg", "more") and r["complete"] >= 1 and not r["cur"]:
+                r["extra"] = r.get("extra", 0) + 1       # response data beyond the first complete message
+            if kind == "msg":
                 r["cur"] = [int(k["len"]), int(k["size"])]
             elif kind == "more" and r["cur"]:
                 r["cur"][0] += int(k["len"])
@@ -604,6 +627,10 @@ class CWorldMonitor:
                     if r["shape"] in ("U", "CS") and r.get("by_close") and r["close"][0] != 0:
                         v.append(("C02", "ok-result-for-failed-rpc", f"stream {dsid} ({r['shape']}): RecvMsg returned the response with a nil error "
                                                                      f"although the peer closed the RPC with code {r['close'][0]}: the status is lost"))
+                    if r["shape"] in ("U", "CS") and r.get("by_close") and r["close"][0] == 0 and (r.get("complete_at_close", 1) > 1 or r.get("extra", 0) > 0):
+                        v.append(("C16", "success-despite-several-responses", f"stream {dsid} ({r['shape']}): RecvMsg returned a response with a nil error although the peer "
+                                                                              f"had sent {r['complete_at_close']} complete response message(s) and {r.get('extra', 0)} further data "
+                                                                              f"frame(s) before its OK close"))
                     if r["shape"] in ("U", "CS") and not r.get("by_close"):
                         # ... and without any close frame it is "success with missing trailers": the RPC really ended by the
                         # caller's cancel / deadline (or the tunnel's end) while the single response was already there
@@ -670,6 +697,35 @@ class CWorldMonitor:
                 r = self.rpcs.get(sid_)
                 if r and st["sent"] > self.peer_win + r["credit"]:
                     v.append(("C06", "sender-exceeds-window", f"stream {sid_}: {st['sent']} request bytes sent with window {self.peer_win} + credit {r['credit']}"))
+        # ---- C06: the client enforces the window IT advertised in new_stream (64 KiB), per stream, on the response direction ----
+        for fsid, f in o["F"]:
+            if f.startswith("new:") and self.rev != 0:
+                try:
+                    self.crwin[fsid] = int(f.split("{")[0].split(":")[3])
+                    if op.startswith("c.new") and "early" in k:
+                        self.crwin[fsid] -= int(k["early"])      # the peer's immediate answer already used this much
+                except (ValueError, IndexError):
+                    pass
+            if f.startswith("wu:") and fsid in self.crwin:
+                self.crwin[fsid] += int(f.split(":")[1])
+        if op.startswith("c.frame") and kind in ("msg", "more") and sid in self.crwin and (live_before is None or sid in live_before) \
+                and sid in self.rpcs and not self.rpcs[sid].get("flushed"):
+            n = int(k["len"])
+            refused = any(s_ == sid and f == "cancel" for s_, f in o["F"]) or any(d[0] == sid and d[2] == "status:8" for d in o["D"])
+            exhausted8 = any(d[0] == sid and d[2] == "status:8" for d in o["D"])
+            if n > self.crwin[sid]:
+                if not refused and o["T"] is not None and sid in o["T"] and not fin:
+                    v.append(("C06", "overrun-accepted", f"stream {sid}: a response frame of {n} bytes was accepted with only {self.crwin[sid]} bytes of the "
+                                                         f"window the client advertised left"))
+                self.crwin.pop(sid, None)
+            elif exhausted8:
+                v.append(("C06", "spurious-overrun", f"stream {sid}: failed with ResourceExhausted on a response frame of {n} bytes although {self.crwin[sid]} bytes "
+                                                     f"of the window the client advertised were left"))
+                self.crwin.pop(sid, None)
+            else:
+                self.crwin[sid] -= n
+        if op.startswith("c.frame") and kind == "close" and sid in self.crwin:
+            self.crwin.pop(sid, None)
         # ---- C05: a caller's SendMsg is blocked only while the window the peer advertised is used up ----
         if op.startswith("c.call") and kind == "send" and sid in self.rpcs:
             self.rpcs[sid]["send_pending"] = True
@@ -694,6 +750,21 @@ class CWorldMonitor:
                     if fsid in self.rpcs:
                         self.rpcs[fsid]["finished"] = True
                         self.rpcs[fsid]["flushed"] = True
+            # an RPC that leaves the client's table without the peer having closed it (cancel, deadline, protocol error) must be
+            # announced to the peer with a cancel frame: otherwise the serving end keeps its table entry and its goroutines
+            if live_before is not None and not self.finished and not fin:
+                for t in sorted(live_before - set(o["T"])):
+                    r = self.rpcs.get(t)
+                    if op.startswith("c.frame") and sid == t:
+                        continue      # ended in reaction to a frame of the peer's (its close, or a protocol violation of its own)
+                    if r is not None and not r.get("by_close") and not any(fs == t and f == "cancel" for fs, f in o["F"]) \
+                            and not r.get("cancel_seen"):
+                        for tag in ("C14", "C07"):
+                            v.append((tag, "no-cancel-frame-for-locally-ended-rpc", f"stream {t} left the client's table (ended locally: cancel / deadline / error) "
+                                                                                    f"but no cancel frame was sent: the serving end is never told and keeps the RPC"))
+            for fs, f in o["F"]:
+                if f == "cancel" and fs in self.rpcs:
+                    self.rpcs[fs]["cancel_seen"] = True
             for t in o["T"]:
                 if t not in self.table and t in self.rpcs and self.rpcs[t].get("by_close"):
                     v.append(("C14", "stale-table-entry", f"stream {t} still in the client table after its close frame"))
